@@ -84,7 +84,8 @@ func shouldInit(p *ssa.Package) bool {
 	for _, pre := range []string{"runtime/", "crypto/", "internal/", "vendor/", "net/", "log/", "os/", "math/rand", "compress/", "golang.org/x/", "database/", "text/", "html/", "go/", "debug/", "testing/", "unique", "iter", "weak", "hash/maphash"} {
 		if strings.HasPrefix(path, pre) {
 			switch path {
-			case "internal/oserror", "internal/itoa", "internal/stringslite", "internal/byteorder", "internal/filepathlite":
+			case "internal/oserror", "internal/itoa", "internal/stringslite", "internal/byteorder", "internal/filepathlite", "net/netip":
+				// net/netip: its init only makes the three address-family handles (unique.Make, native)
 				return true
 			}
 			return false
